@@ -31,32 +31,32 @@ uint8_t nondet_u8(void); uint16_t nondet_u16(void); uint32_t nondet_u32(void); u
 #define CBMC_ONLY(x) x
 #else
 #include <setjmp.h>
-uint64_t h_input(const char* name, int idx, int bits);
-double h_input_double(const char* name);
-void h_reject(void);
-void h_fail(const char* msg, int line);
-void h_observe(const char* what, uint64_t v);
-void h_observe_str(const char* what, const char* s);
-void h_register(const char* name, void (*fn)(void));
-void h_end_path(void);
-#define IN_U8(n)  uint8_t n = (uint8_t)h_input(#n, -1, 8)
-#define IN_U16(n) uint16_t n = (uint16_t)h_input(#n, -1, 16)
-#define IN_U32(n) uint32_t n = (uint32_t)h_input(#n, -1, 32)
-#define IN_U64(n) uint64_t n = (uint64_t)h_input(#n, -1, 64)
-#define IN_I32(n) int32_t n = (int32_t)h_input(#n, -1, 32)
-#define IN_I64(n) int64_t n = (int64_t)h_input(#n, -1, 64)
-#define IN_BOOL(n) uint32_t n = (uint32_t)h_input(#n, -1, 1)
-#define IN_DBL(n) double n = h_input_double(#n)
-#define IN_ARR_U8(n, len) uint8_t n[len]; for (unsigned n##_i = 0; n##_i < (len); n##_i++) n[n##_i] = (uint8_t)h_input(#n, (int)n##_i, 8)
-#define IN_ARR_U32(n, len) uint32_t n[len]; for (unsigned n##_i = 0; n##_i < (len); n##_i++) n[n##_i] = (uint32_t)h_input(#n, (int)n##_i, 32)
-#define IN_ARR_U64(n, len) uint64_t n[len]; for (unsigned n##_i = 0; n##_i < (len); n##_i++) n[n##_i] = (uint64_t)h_input(#n, (int)n##_i, 64)
-#define ASSUME(c) do { if (!(c)) h_reject(); } while (0)
-#define CHECK(c, msg) do { if (!(c)) h_fail(msg, __LINE__); } while (0)
-#define OBSERVE(x) h_observe(#x, (uint64_t)(x))
-#define OBSERVE_STR(x) h_observe_str(#x, (const char*)(x))
+uint64_t hn_input(const char* name, int idx, int bits);
+double hn_input_double(const char* name);
+void hn_reject(void);
+void hn_fail(const char* msg, int line);
+void hn_observe(const char* what, uint64_t v);
+void hn_observe_str(const char* what, const char* s);
+void hn_register(const char* name, void (*fn)(void));
+void hn_end_path(void);
+#define IN_U8(n)  uint8_t n = (uint8_t)hn_input(#n, -1, 8)
+#define IN_U16(n) uint16_t n = (uint16_t)hn_input(#n, -1, 16)
+#define IN_U32(n) uint32_t n = (uint32_t)hn_input(#n, -1, 32)
+#define IN_U64(n) uint64_t n = (uint64_t)hn_input(#n, -1, 64)
+#define IN_I32(n) int32_t n = (int32_t)hn_input(#n, -1, 32)
+#define IN_I64(n) int64_t n = (int64_t)hn_input(#n, -1, 64)
+#define IN_BOOL(n) uint32_t n = (uint32_t)hn_input(#n, -1, 1)
+#define IN_DBL(n) double n = hn_input_double(#n)
+#define IN_ARR_U8(n, len) uint8_t n[len]; for (unsigned n##_i = 0; n##_i < (len); n##_i++) n[n##_i] = (uint8_t)hn_input(#n, (int)n##_i, 8)
+#define IN_ARR_U32(n, len) uint32_t n[len]; for (unsigned n##_i = 0; n##_i < (len); n##_i++) n[n##_i] = (uint32_t)hn_input(#n, (int)n##_i, 32)
+#define IN_ARR_U64(n, len) uint64_t n[len]; for (unsigned n##_i = 0; n##_i < (len); n##_i++) n[n##_i] = (uint64_t)hn_input(#n, (int)n##_i, 64)
+#define ASSUME(c) do { if (!(c)) hn_reject(); } while (0)
+#define CHECK(c, msg) do { if (!(c)) hn_fail(msg, __LINE__); } while (0)
+#define OBSERVE(x) hn_observe(#x, (uint64_t)(x))
+#define OBSERVE_STR(x) hn_observe_str(#x, (const char*)(x))
 #define WITNESS(label) ((void)0)
-#define HARNESS(name) void name(void); __attribute__((constructor)) static void reg_##name(void) { h_register(#name, name); } void name(void)
-#define END_PATH() h_end_path()
+#define HARNESS(name) void name(void); __attribute__((constructor)) static void reg_##name(void) { hn_register(#name, name); } void name(void)
+#define END_PATH() hn_end_path()
 #define NATIVE_ONLY(x) x
 #define CBMC_ONLY(x)
 #endif
